@@ -46,8 +46,9 @@ def gen_gates(rng, n, m):
     return instrs
 
 
-def trace_noise(n, instrs, procs):
-    """Real digital_tjm with the gate kernels stubbed; logs, per event, the gate or the local process list."""
+def trace_noise(n, instrs, procs, via_run=False):
+    """Real digital_tjm with the gate kernels stubbed; logs, per event, the gate or the local process list.  via_run: through the
+    public entry point simulator.run (one trajectory), which hands digital_tjm a bit-reversed copy of the circuit."""
     import mqt.yaqs.digital.digital_tjm as D
     from mqt.yaqs.core.data_structures.networks import MPS
     from mqt.yaqs.core.data_structures.noise_model import NoiseModel
@@ -78,9 +79,14 @@ def trace_noise(n, instrs, procs):
 
     D.apply_single_qubit_gate, D.apply_two_qubit_gate, D.apply_dissipation, D.stochastic_process = g1, g2, dis, sto
     try:
-        p = StrongSimParams([Observable("z", 0)], show_progress=False)
+        p = StrongSimParams([Observable("z", 0)], num_traj=1, show_progress=False)
         with common.time_limit(20):
-            D.digital_tjm((0, MPS(n), nm, p, build_qiskit(n, instrs)))
+            if via_run:
+                from mqt.yaqs import simulator
+
+                simulator.run(MPS(n), build_qiskit(n, instrs), p, nm, parallel=False)
+            else:
+                D.digital_tjm((0, MPS(n), nm, p, build_qiskit(n, instrs)))
     finally:
         D.apply_single_qubit_gate, D.apply_two_qubit_gate, D.apply_dissipation, D.stochastic_process = saved
     return events, [(q["name"], list(q["sites"]), float(q["strength"])) for q in nm.processes]
@@ -116,7 +122,8 @@ def correspond(ctx):
         procs = lottery.random_processes(ctx.rng, n, nmax=5)
         if ctx.rng.random() < 0.3 and procs:
             procs.append(dict(procs[0]))  # duplicates
-        events, plist = trace_noise(n, instrs, procs)
+        events, plist = trace_noise(n, instrs, procs, via_run=bool(k % 2))
+        ctx.count("noise_trace_via_simulator_run" if k % 2 else "noise_trace_direct")
         # for every two-qubit gate event: which list positions does the model select?
         gates2 = [e[1] for e in events if e[0] == "G2"]
         kinds = g_list([("One %d%%nat" % s[0]) if len(s) == 1 else ("Two %d%%nat %d%%nat" % (s[0], s[1])) for (_, s, _) in plist])
@@ -192,7 +199,10 @@ def digital_tree_average(n, instrs, procs, scale):
     obs = [Observable(p, q) for q in range(n) for p in "xz"]
     par = StrongSimParams(obs, show_progress=False, threshold=1e-14, max_bond_dim=16)
     nm = NoiseModel(lottery.nm_procs(procs, scale))
-    qc = build_qiskit(n, instrs)
+    # what the public entry point hands to a trajectory: simulator._run_circuit passes a deep copy of the bit-reversed circuit
+    import copy as _copy
+
+    qc = _copy.deepcopy(build_qiskit(n, instrs).reverse_bits())
     real_rng = np.random.default_rng
 
     def run(rng):
